@@ -223,10 +223,12 @@ Definition reduce_memmap_old (a : view) (m : backing) : result (Z * order * opti
 Inductive route := RReduceBacked | RDumpTemp | RPickle.
 (* `hasobject` is numpy's dtype.hasobject (an object field at ANY depth of a structured / sub-array dtype counts);
    `dtype_kind` is ord(dtype.kind) -- 'V' for every structured dtype, with or without object fields *)
-Definition forward_route (has_backing hasobject : bool) (dtype_kind : Z) (max_nbytes : option Z) (nbytes : Z)
+(* `mmap_mode`: None = "disable memmapping" (the worker gets an in-memory copy), Some _ = the mode of the worker's view *)
+Definition forward_route (has_backing hasobject : bool) (dtype_kind : Z) (max_nbytes mmap_mode : option Z) (nbytes : Z)
   : result route :=
   if has_backing then Ok RReduceBacked
-  else bind (forward_memmaps hasobject dtype_kind max_nbytes nbytes) (fun b => Ok (if b then RDumpTemp else RPickle)).
+  else bind (forward_memmaps hasobject dtype_kind max_nbytes mmap_mode nbytes)
+            (fun b => Ok (if b then RDumpTemp else RPickle)).
 Definition backward_route (has_backing is_joblib_temp : bool) : route :=
   if has_backing && negb is_joblib_temp then RReduceBacked else RPickle.
 
